@@ -986,6 +986,16 @@ def parse_wrap(line):
     return kind, xslot, ncl, d0, [q for q in gs], cls
 
 
+def wrap_need(kind, gs):
+    """the largest count one counter of the case has to hold (gaussian: the examples of one class)"""
+    if kind == "gau":
+        tot = {}
+        for c, _, k in gs:
+            tot[c] = tot.get(c, 0) + k
+        return max(tot.values())
+    return max(k for _, _, k in gs)
+
+
 def wrap_oracle(line, cpp, stats=None):
     """counter-width-directed cases: the documented rule on the multiset of examples (exact integer counts)"""
     kind, xslot, ncl, d0, gs, cls = parse_wrap(line)
@@ -993,7 +1003,7 @@ def wrap_oracle(line, cpp, stats=None):
     name = {"dyn": "dyn_slot", "gau": "gaussian", "bin": "binary"}.get(kind, kind)
     n = sum(k for _, _, k in gs)
     tags = {"evaluator": name, "scale": n}
-    big = max(k for _, _, k in gs)
+    big = wrap_need(kind, gs)
     try:
         fit = untok(c[2])
         ii, oi = c.index("inc"), c.index("odd")
@@ -1257,7 +1267,7 @@ def run(chk, replay=None):
         if t[0] == "big":
             chk.count("scale:%s" % t[4])
         if t[0] == "wrap":
-            wk = max(q[2] for q in parse_wrap(line)[4])
+            wk = wrap_need(t[1], parse_wrap(line)[4])
             chk.count("counter_must_hold:2^%d+" % (wk.bit_length() - 1))
             chk.count("wrap_start_difficulty:" + ("0" if t[4] == "0" else ">=2^%d-1" % ((int(t[4]) + 1).bit_length() - 1)))
             if ostats.get("ambiguous"):
